@@ -232,3 +232,81 @@ func IfInt32(c bool, a, b int32) int32 {
 	}
 	return b
 }
+
+// ---- store fault injection (C09) ----
+//
+// Symbolically, FSFaultNext(path, mode) makes the next WriteFile to path behave as: 0 success,
+// 1 error before the file is touched, 2 error after a proper prefix was written (disk full),
+// 3 process killed before the file is touched, 4 process killed part-way through the write.
+// Natively the real write always completes; FSEmulate then puts the file into the state the
+// fault would have left (previous content, or a proper prefix of the new content), which is the
+// store state a restart sees.
+
+var fsSaved = map[string][]byte{}
+var fsSavedAbsent = map[string]bool{}
+var fsMode = map[string]int{}
+
+func FSFaultNext(path string, mode int) {
+	fsMode[path] = mode
+	b, err := os.ReadFile(path)
+	if err != nil {
+		fsSavedAbsent[path] = true
+		delete(fsSaved, path)
+	} else {
+		fsSaved[path] = b
+		delete(fsSavedAbsent, path)
+	}
+}
+
+// FSEmulate applies the effect of the pending fault on path; offset chooses the prefix length.
+func FSEmulate(path string, offset int) {
+	mode := fsMode[path]
+	delete(fsMode, path)
+	switch mode {
+	case 1, 3:
+		if fsSavedAbsent[path] {
+			os.Remove(path)
+		} else {
+			os.WriteFile(path, fsSaved[path], 0755)
+		}
+	case 2, 4:
+		b, err := os.ReadFile(path)
+		if err == nil && len(b) > 0 {
+			if offset < 0 {
+				offset = -offset
+			}
+			os.WriteFile(path, b[:offset%len(b)], 0755)
+		}
+	}
+}
+
+// FaultCrashes reports whether a fault mode kills the process.
+func FaultCrashes(mode int) bool { return mode == 3 || mode == 4 }
+
+// TempDir is a fresh store directory.
+func TempDir() string {
+	d, err := os.MkdirTemp("", "kvass-verif-store-")
+	if err != nil {
+		panic(err)
+	}
+	return d
+}
+
+func FSExists(path string) bool {
+	_, err := os.Stat(path)
+	return err == nil
+}
+
+func IfUint64(c bool, a, b uint64) uint64 {
+	if c {
+		return a
+	}
+	return b
+}
+
+func IfFloat(c bool, a, b float64) float64 {
+	if c {
+		return a
+	}
+	return b
+}
